@@ -357,6 +357,30 @@ class Enum:
         return "Enum(%s,%s,%r)" % (self.ty, self.discr, self.variants)
 
 
+class VecVal:
+    """Vec / slice of concrete length holding symbolic elements"""
+    def __init__(self, items):
+        self.items = list(items)
+
+    def __repr__(self):
+        return "VecVal(%r)" % (self.items,)
+
+
+class MutRef:
+    """`&mut place` of the current activation; resolved against the environment at use"""
+    def __init__(self, fn, place):
+        self.fn, self.place = fn, place
+
+    def __repr__(self):
+        return "MutRef(%s)" % self.place
+
+
+class ElemRef:
+    """`&mut vec[idx]` produced by IndexMut"""
+    def __init__(self, vecref, idx):
+        self.vecref, self.idx = vecref, idx
+
+
 class Opaque:
     def __init__(self, what, args=()):
         self.what, self.args = what, list(args)
@@ -373,6 +397,22 @@ class Outcome:
 
 INT_BITS = {"u8": (8, False), "u16": (16, False), "u32": (32, False), "u64": (64, False), "usize": (64, False),
             "i8": (8, True), "i16": (16, True), "i32": (32, True), "i64": (64, True), "isize": (64, True)}
+
+
+def contradicts(pc, cond):
+    """cheap syntactic infeasibility test: `(= x 1)` after `(= x 0)`, or `(= x 0)` after `(not (= x 0))`"""
+    m = re.match(r"^\(= ([A-Za-z_]\w*) (-?\d+)\)$", cond)
+    if m:
+        for c in pc:
+            m2 = re.match(r"^\(= ([A-Za-z_]\w*) (-?\d+)\)$", c)
+            if m2 and m2.group(1) == m.group(1) and m2.group(2) != m.group(2):
+                return True
+            if c == "(not %s)" % cond:
+                return True
+    m = re.match(r"^\(not (\(= [A-Za-z_]\w* -?\d+\))\)$", cond)
+    if m and m.group(1) in pc:
+        return True
+    return False
 
 
 def fork_env(env):
@@ -413,6 +453,8 @@ class Interp:
             if (bb in visited):
                 raise Unsupported("%s: loop through %s - only loop-free bodies are encoded" % (fn.name, bb))
             visited.add(bb)
+            if len(trace) > 600:
+                raise Unsupported("%s: path longer than 600 blocks - loop?" % fn.name)
             blk = fn.blocks[bb]
             for st in blk.stmts:
                 self._stmt(fn, st, env, pc)
@@ -421,6 +463,7 @@ class Interp:
             if t == "return":
                 o = Outcome("return", pc, env.get("_0"), trace=trace)
                 o.events = list(env.get("__events", []))
+                o.env = env
                 outs.append(o)
                 self._count()
                 return
@@ -444,7 +487,7 @@ class Interp:
                         cond = self.sem.int_eq_const(v, int(k))
                         taken_conds.append(cond)
                     cond = self.sem.simplify(cond)
-                    if cond == "false":
+                    if cond == "false" or contradicts(pc, cond):
                         continue
                     env2 = fork_env(env)
                     self._exec(fn, dest, env2, pc + ([cond] if cond != "true" else []), outs, trace, depth)
@@ -490,6 +533,8 @@ class Interp:
                     bb = ret_bb
                     continue
                 for extra_pc, val, kind, msg in results:
+                    if any(contradicts(pc, c) for c in extra_pc):
+                        continue
                     if kind == "panic":
                         outs.append(Outcome("panic", pc + extra_pc, msg=msg, trace=trace))
                         self._count()
@@ -546,7 +591,39 @@ class Interp:
                 if depth > 6:
                     raise Unsupported("inline depth")
                 return self.call_fn(target, args, depth + 1)
+        target = self.auto_resolve(callee, args)
+        if target is not None:
+            if depth > 8:
+                raise Unsupported("inline depth")
+            return self.call_fn(target, args, depth + 1)
         raise Unsupported("%s: call to %s has no model and is not in the inline set" % (fn.name, callee))
+
+    def auto_resolve(self, callee, args):
+        """a call to another function of this crate that has exactly one candidate body in the dump (same final
+        path segment, same arity) is inlined - keeps the encoding alive when code is moved into a helper"""
+        if callee.startswith(("std::", "core::", "alloc::", "<std::", "<core::", "<alloc::")):
+            return None
+        name = re.sub(r"::<[^:]*>$", "", callee).split("::")[-1]
+        if not re.match(r"^\w+$", name):
+            return None
+        cands = [f for n, fl in self.dump.fns.items() for f in fl
+                 if (n.endswith("::" + name) or n == name) and len(f.args) == len(args) and "{closure" not in n]
+        if len(cands) > 1:
+            head = callee.lstrip("<").split("::")[0]
+            c2 = [f for f in cands if f.name.split("::")[0] == head]
+            if c2:
+                cands = c2
+        if len(cands) > 1 and args:
+            # disambiguate by the type of the first parameter as written in the callee path (`impl Type<..>`)
+            m = re.search(r"<impl ([\w:]+)", callee)
+            if m:
+                ty = m.group(1).split("::")[-1]
+                c2 = [f for f in cands if ty in f.args[0][1]]
+                if c2:
+                    cands = c2
+        if len(cands) == 1:
+            return cands[0]
+        return None
 
     # -- statements
     def _stmt(self, fn, st, env, pc):
@@ -563,18 +640,39 @@ class Interp:
         if re.match(r"^_\d+$", place):
             env[place] = val
             return
-        m = re.match(r"^\((_\d+)\.(\d+): .*\)$", place)
-        if m:
-            base = env.get(m.group(1))
-            if not isinstance(base, Agg):
-                base = Agg(fn.locals.get(m.group(1), "?"), {})
-            base = Agg(base.ty, base.fields)
-            base.fields[m.group(2)] = val
-            env[m.group(1)] = base
+        if place.startswith("(*") and place.endswith(")"):
+            inner = place[2:-1].strip()
+            cur = self._place(fn, inner, env) if not re.match(r"^_\d+$", inner) or inner in env else None
+            if isinstance(cur, (MutRef, ElemRef)):
+                self.write_ref(cur, val, env)
+            else:
+                self._assign(fn, inner, val, env)     # references modelled by value
             return
-        m = re.match(r"^\(\*(_\d+)\)$", place)
+        m = re.match(r"^\((.*)\.(\d+): (.+)\)$", place)
         if m:
-            env[m.group(1)] = val  # refs are modelled by value
+            inner, idx = m.group(1).strip(), m.group(2)
+            vm = re.match(r"^\((.*) as (?:variant#)?(\w+)\)$", inner)
+            if vm:
+                base = self._place(fn, vm.group(1), env)
+                if not isinstance(base, Enum):
+                    raise Unsupported("%s: variant field store into %r" % (fn.name, base))
+                variants = dict(base.variants)
+                var = variants[vm.group(2)]
+                fields = dict(var.fields)
+                fields[idx] = val
+                variants[vm.group(2)] = Agg(var.ty, fields)
+                self._assign(fn, vm.group(1), Enum(base.ty, base.discr, variants, base.names), env)
+                return
+            try:
+                base = self._place(fn, inner, env)
+            except Unsupported:
+                base = None
+            if isinstance(base, Agg):
+                nb = base.__class__(base.ty, base.fields)
+            else:
+                nb = Agg(fn.locals.get(inner, "?"), {})
+            nb.fields[idx] = val
+            self._assign(fn, inner, nb, env)
             return
         raise Unsupported("%s: assignment to place %s" % (fn.name, place))
 
@@ -586,7 +684,8 @@ class Interp:
                 raise Unsupported("%s: read of unassigned local %s" % (fn.name, p))
             return env[p]
         if p.startswith("(*") and p.endswith(")"):
-            return self._place(fn, p[2:-1], env)
+            inner = self._place(fn, p[2:-1], env)
+            return self.deref(inner, env)
         m = re.match(r"^\((.*)\.(\d+): (.+)\)$", p)
         if m:
             inner = m.group(1).strip()
@@ -602,6 +701,26 @@ class Interp:
             base = self._place(fn, inner, env)
             return self._field(fn, base, m.group(2))
         raise Unsupported("%s: place %s" % (fn.name, p))
+
+    def deref(self, v, env):
+        if isinstance(v, MutRef):
+            return self._place(v.fn, v.place, env)
+        if isinstance(v, ElemRef):
+            vec = self.deref(v.vecref, env)
+            return vec.items[v.idx]
+        return v
+
+    def write_ref(self, ref, val, env):
+        """store through a &mut obtained earlier in this activation"""
+        if isinstance(ref, MutRef):
+            self._assign(ref.fn, ref.place, val, env)
+        elif isinstance(ref, ElemRef):
+            vec = self.deref(ref.vecref, env)
+            items = list(vec.items)
+            items[ref.idx] = val
+            self.write_ref(ref.vecref, VecVal(items), env)
+        else:
+            raise Unsupported("store through a non-reference %r" % (ref,))
 
     def _field(self, fn, base, idx):
         if isinstance(base, Agg):
@@ -638,6 +757,12 @@ class Interp:
             return SV(m.group(2), sem.int_const(int(m.group(1)), m.group(2)))
         if c in ("true", "false"):
             return SV("bool", c)
+        m = re.match(r"^ZeroSized: (\{closure@.*\})$", c)
+        if m:
+            return Agg(m.group(1), {})       # closure without captures
+        m = re.match(r"^ZeroSized: (.*)$", c)
+        if m:
+            return Opaque("fnitem:" + m.group(1))
         if c.startswith('"'):
             return SV("str", c)
         m = re.match(r"^core::num::<impl (\w+)>::(MAX|MIN)$", c)
@@ -700,6 +825,8 @@ class Interp:
                 v = self._operand(fn, m.group(1), env)
                 return self._cast(fn, v, m.group(2).strip(), m.group(3))
             return self._operand(fn, r, env)
+        if r.startswith("&mut "):
+            return MutRef(fn, r[len("&mut "):].strip())
         if r.startswith("&"):
             p = re.sub(r"^&(raw (const|mut) |mut )?", "", r)
             return self._place(fn, p, env)
